@@ -3,6 +3,8 @@
 
 import ast
 
+from ..model import AnalysisError
+
 from ..facts import LP_CLASS, NP_CLASS, call_chain, calls_of, first_call, fmt_target, walk
 from ..model import norm_stmt
 from .common import facts, parent
@@ -318,39 +320,49 @@ def _is_size_def(node):
 
 
 def check_unwrapping(ctx):
+    """kinds and lengths of what the prediction methods return, per scenario (cardinality interpreter)"""
+    from .cardinality import K, M, V, returned
     prog = ctx.prog
     n = 0
-    # (i) policies' predict_expectations
+
+    def is_dict(v):
+        return v.kind == "dict" and v.n == K
+
+    def is_scalar(v):
+        return v.kind == "scalar"
+
+    def expect(cname, meth, sc, single, what, extra=None, tag=""):
+        nonlocal n
+        fn = prog.cls(cname).resolve(meth)
+        if fn is None:
+            raise AnalysisError("anchored method %s.%s not found" % (cname, meth))
+        ctx.saw_fn(fn)
+        v, notes = returned(prog, cname, meth, sc, extra=extra)
+        if sc == "many":
+            ok = v.kind == "list" and v.n == M and v.elem is not None and single(v.elem)
+            want = "a list with one %s per row" % what
+        else:
+            ok = single(v)
+            want = "one %s (not a list)" % what
+        n += 1
+        scen = {"none": "contexts is None", "one": "one row", "many": "m > 1 rows"}[sc]
+        ctx.check(ok, "R8.5", "%s.%s%s returns %s when %s" % (cname, meth, tag, want, scen), fn.node, fn,
+                  "abstract result: %r%s" % (v, ("; " + "; ".join(notes[:2])) if notes else ""),
+                  construct="def %s.%s%s [%s]" % (cname, meth, tag, sc))
+
+    # (i) the context-free policies
     for cname in ("_EpsilonGreedy", "_UCB1", "_Softmax", "_ThompsonSampling", "_Popularity", "_Random"):
-        fn = prog.method(cname, "predict_expectations")
-        ctx.saw_fn(fn)
-        body = [s for s in fn.node.body if not (isinstance(s, ast.Expr) and isinstance(s.value, ast.Constant))]
-        ok, why = _unwrap_idiom(body)
-        n += 1
-        ctx.check(ok is True, "R8.5", "%s.predict_expectations: none/one row -> dict, m rows -> list of m" % cname,
-                  fn.node, fn, why, construct="def %s.predict_expectations" % cname) if ok is not None else \
-            ctx.undecided("R8.5", "%s.predict_expectations: unrecognised unwrapping form" % cname, fn.node, fn, why,
-                          construct="def %s.predict_expectations" % cname)
-        # predict on top of it
-        fp = prog.method(cname, "predict")
-        ctx.saw_fn(fp)
-        okp = _predict_form(fp)
-        n += 1
-        ctx.check(bool(okp), "R8.5", "%s.predict maps dict -> arm, list -> list of arms" % cname, fp.node, fp,
-                  construct="def %s.predict" % cname)
+        for sc in ("none", "one", "many"):
+            expect(cname, "predict_expectations", sc, is_dict, "dictionary keyed by the arms")
+            expect(cname, "predict", sc, is_scalar, "arm")
     # (ii) list-or-single unwrapping of the row-wise implementations
-    from .pattern import match as _pm
-    for cname, meth, var in (("BaseMAB", "_parallel_predict", "predictions"),
-                             ("_Linear", "_vectorized_predict_context", "predictions")):
-        fn = prog.method(cname, meth)
-        ctx.saw_fn(fn)
-        rets = _ret_exprs(fn)
-        want = "<list> if len(<list>) > 1 else <list>[0]"
-        ok = len(rets) == 1 and _pm("return _P_ if len(_P_) > 1 else _P_[0]", rets[0]) is not None
-        n += 1
-        ctx.check(ok, "R8.5", "%s.%s returns the list for m > 1 rows and its only element for one row" %
-                  (cname, meth), rets[0] if rets else fn.node, fn, "expected `return %s`" % want)
-    ctx.floor("R8.5", "unwrapping sites", n, 14)
+    for sc in ("one", "many"):
+        expect("BaseMAB", "_parallel_predict", sc, lambda v: v.kind == "row", "row result")
+        expect("_Linear", "_vectorized_predict_context", sc, is_scalar, "arm",
+               extra={"is_predict": V("bool", const=True)}, tag="(is_predict=True)")
+        expect("_Linear", "_vectorized_predict_context", sc, is_dict, "dictionary keyed by the arms",
+               extra={"is_predict": V("bool", const=False)}, tag="(is_predict=False)")
+    ctx.floor("R8.5", "unwrapping obligations", n, 40)
 
 
 def _predict_form(fp):
